@@ -88,6 +88,23 @@ LDecoded ==
   \A j \in DOMAIN sc.tree :
     (sc.gz /\ sc.tree[j].k = "gz") => OutcomeFull(sc) = OutcomeFull([sc EXCEPT !.tree[j].k = "file"])
 
+\* the transport is transparent: a FIFO, /dev/stdin or a process substitution delivers, and fails,
+\* exactly like the regular file with the same bytes - although it cannot be rewound and reports size 0
+LTransport ==
+  \A j \in DOMAIN sc.tree :
+    sc.tree[j].tr = "pipe" =>
+      LET asreg == [sc EXCEPT !.tree[j].tr = "reg"] IN
+      /\ ReportedSize(sc.tree[j].k, sc.tree[j].data, "pipe") = 0
+      /\ Mentions(asreg) = Mentions(sc)
+      /\ \A cut \in {0, 1, 4} : OutcomeCut(sc, cut) = OutcomeCut(asreg, cut)
+      /\ OutcomeFull(sc) = OutcomeFull(asreg)
+\* the descriptor limit is not an input of the outcome: the run under the smallest admissible limit is
+\* in the domain and demands the same rows, error count and exit status, for any number of mentions
+LLimit ==
+  LET low == [sc EXCEPT !.nofile = sc.readers + FdReserve] IN
+  /\ InDomain(low) /\ MaxOpen(low) = MaxOpen(sc) /\ MaxOpen(sc) + FdReserve <= low.nofile
+  /\ OutcomeFull(low) = OutcomeFull(sc)
+
 \* exit-status precedence: read error (2) > parse error (2) > nothing matched (1) > 0
 LExit ==
   \A o \in {OutcomeCut(sc, 0), OutcomeFull(sc)} :
